@@ -595,6 +595,22 @@ def _discr_sources(b, dd):
     return out or ["?"]
 
 
+def g11(F, rep):
+    """The scanner is handed the caller's whole input, once: a wrapper is found "at any offset" only if the slice the scanner
+    walks is the input itself - a window, a prefix or a per-piece call loses every stream that crosses (or outgrows) a piece."""
+    n = 0
+    for name, b in sorted(F.bodies.items()):
+        cs = [(bb, t) for bb, t in b.calls() if strip_generics(callee_def(t)) == SD + "split_into_deflate_streams"]
+        for k, (bb, t) in enumerate(cs):
+            n += 1
+            d = flow.describe(b, t["args"][0])
+            whole = re.match(r"^(deref\()*arg<&(mut )?\[u8\]>\)*$", d or "") is not None
+            looped = any(bb in b.reachable_from(s2) for s2 in b.succ(bb))
+            rep.add("G11", "scanner-sees-the-whole-input:%s#%d" % (name.replace("preflate_rs::", ""), k), whole and not looped and len(cs) == 1, b.where(bb),
+                    "split_into_deflate_streams(%s, ..)%s%s" % (flow.describe(b, t["args"][0], names=True), " inside a loop" if looped else "", "" if len(cs) == 1 else "; %d calls" % len(cs)))
+    rep.floor("G11", "scanner-call-sites", n, 1)
+
+
 def run(ctx, rep):
     F = ctx.lib
     rep.explanation = ("The recogniser is compared with the wrapper specifications (spec/wrappers.json typed in from RFC 1950/1952, APPNOTE 4.3.7, PNG): "
@@ -614,4 +630,5 @@ def run(ctx, rep):
     gb = F.body(SD + "skip_gzip_header")
     own = _err.error_constructions(F, gb)
     rep.add("G10", "gzip-header-one-rejection", len(own) <= 1, "%s:%s" % (gb.file, gb.line), "errors constructed by skip_gzip_header itself: %s (the method byte test)" % own)
+    g11(F, rep)
     scan.a4_g5_for(ctx, rep, ("G5",))
